@@ -278,3 +278,43 @@ def run(chk):
                 return f"equation received heterogeneous {sorted(declared)}, others unchanged"
             chk.run("C12.R7", "jinns.loss._DynamicLossAbstract:_decorator_heteregeneous_params/_eval_heterogeneous_parameters",
                     cfg, go, construct=f"heterogeneity[{eq_type}]")
+
+    run_hyper_input(chk, E)
+
+
+def run_hyper_input(chk, E):
+    """R8: a hyper-network wrapper feeds the hyper-network with the designated parameters in their DECLARED order: inside a
+    loss the parameter dictionary has been rebuilt by vmap / tree_map (sorted keys), so the network input of sample i must
+    not depend on the order of the dictionary"""
+    import numpy as np
+    from ..alg import Fv, Sym
+    from ..extern import OpaqueObj, same
+    from .C10 import HYPER_MOD, vec, input_transform, output_transform
+    chk.rule("C12.R8", "HYPERPINN.eval_nn: the hyper-network input holds the designated parameters in declared order whatever the "
+                       "key order of the parameter dictionary (per-sample rows reach their own input slots)", floor=2)
+    HYPER = E.w.get(HYPER_MOD, "HYPERPINN")
+    Params = E.Params
+    for declared in (('nu', 'D'), ('D', 'nu')):
+        def go(declared=declared):
+            leaves = [Fv('W0', (2, 3)), Fv('b0', (2,)), Fv('W1', (1, 2)), Fv('b1', (1,))]
+            inner = {'layers': [{'weight': leaves[0], 'bias': leaves[1]}, {'weight': leaves[2], 'bias': leaves[3]}]}
+            sizes = [2, 6, 1, 2]
+            cum = list(np.cumsum(sizes))
+            static = OpaqueObj('static', attrs={'n_out': 2})
+            static_h = OpaqueObj('static_hyper', attrs={'n_out': int(cum[-1])})
+            hp = HYPER.make(slice_solution=slice(0, 2), eq_type="statio_PDE", input_transform=input_transform,
+                            output_transform=output_transform, output_slice=None, params=inner, static=static,
+                            hyperparams=list(declared), hypernet_input_size=3, params_hyper=Sym('hyper_own'),
+                            static_hyper=static_h, pinn_params_sum=int(cum[-1]), pinn_params_cumsum=[int(c) for c in cum])
+            vals = {'nu': vec('nu', 1), 'D': Fv('D', (1, 2)), 'other': vec('other', 1)}
+            x = vec('x', 2)
+            outs = []
+            for order in (('nu', 'D', 'other'), ('D', 'nu', 'other'), ('other', 'D', 'nu')):
+                params = Params.make(nn_params=Sym('theta_h'), eq_params={k: vals[k] for k in order})
+                outs.append((order, to_at(hp.eval_nn(x, params))))
+            for order, o in outs[1:]:
+                if not same(o, outs[0][1]):
+                    raise Violation("HYPERPINN.eval_nn", f"with eq_params keys in order {list(order)}: {str(o)[:220]}",
+                                    f"the value obtained with keys in order {list(outs[0][0])}: {str(outs[0][1])[:220]}")
+            return "independent of the dictionary's key order"
+        chk.run("C12.R8", f"{HYPER_MOD}:HYPERPINN.eval_nn", {"hyperparams": list(declared)}, go, construct="hyper-network input order")
